@@ -21,25 +21,25 @@ import BumpverVerif.Gen.PatternsPrims
 open Lean
 namespace BV.Drv
 
-def jint (i : Int) : Json := Json.num ⟨i, 0⟩
-def jnat (n : Nat) : Json := Json.num ⟨Int.ofNat n, 0⟩
+def pjint (i : Int) : Json := Json.num ⟨i, 0⟩
+def pjnat (n : Nat) : Json := Json.num ⟨Int.ofNat n, 0⟩
 
-def asInt : Json → Except String Int
+def pasInt : Json → Except String Int
   | Json.num n => if n.exponent == 0 then .ok n.mantissa else .error "not an integer"
   | _ => .error "not an integer"
 
-def getInt (j : Json) (k : String) : Except String Int := do asInt (← j.getObjVal? k)
+def pgetInt (j : Json) (k : String) : Except String Int := do pasInt (← j.getObjVal? k)
 
 def getIntList (j : Json) (k : String) : Except String (List Int) :=
   match j.getObjVal? k with
-  | .ok (Json.arr a) => a.toList.mapM asInt
+  | .ok (Json.arr a) => a.toList.mapM pasInt
   | _ => .error s!"missing int list {k}"
 
 /-- a list of `[key, id]` pairs -/
 def getPairs (j : Json) (k : String) : Except String (List (Int × Int)) :=
   match j.getObjVal? k with
   | .ok (Json.arr a) => a.toList.mapM (fun x => match x with
-      | Json.arr #[a, b] => do pure (← asInt a, ← asInt b)
+      | Json.arr #[a, b] => do pure (← pasInt a, ← pasInt b)
       | _ => .error "bad pair")
   | _ => .error s!"missing pair list {k}"
 
@@ -51,12 +51,12 @@ def getStrPairs (j : Json) (k : String) : Except String (List (Str × Str)) :=
       | _ => .error "bad pair")
   | _ => .error s!"missing pair list {k}"
 
-def okInts (l : List Int) : Json := Json.mkObj [("ok", Json.arr (l.map jint).toArray)]
-def okInt (i : Int) : Json := Json.mkObj [("ok", jint i)]
-def okPairs (l : List (Int × Int)) : Json := Json.mkObj [("ok", Json.arr (l.map (fun p => Json.arr #[jint p.1, jint p.2])).toArray)]
+def okInts (l : List Int) : Json := Json.mkObj [("ok", Json.arr (l.map pjint).toArray)]
+def pokInt (i : Int) : Json := Json.mkObj [("ok", pjint i)]
+def okPairs (l : List (Int × Int)) : Json := Json.mkObj [("ok", Json.arr (l.map (fun p => Json.arr #[pjint p.1, pjint p.2])).toArray)]
 def okStrPairs (l : List (Str × Str)) : Json := Json.mkObj [("ok", Json.arr (l.map (fun p => Json.arr #[jstr p.1, jstr p.2])).toArray)]
-def okDate (d : Nat × Nat × Nat) : Json := Json.mkObj [("ok", Json.arr #[jnat d.1, jnat d.2.1, jnat d.2.2])]
-def okBool (b : Bool) : Json := Json.mkObj [("ok", Json.bool b)]
+def pokDate (d : Nat × Nat × Nat) : Json := Json.mkObj [("ok", Json.arr #[pjnat d.1, pjnat d.2.1, pjnat d.2.2])]
+def pokBool (b : Bool) : Json := Json.mkObj [("ok", Json.bool b)]
 
 def ltInt (a b : Int) : Bool := decide (a < b)
 
@@ -69,25 +69,25 @@ def handlePrims : Handler := fun op j =>
   | "replace_pyp" => pure (okStr (PyP.replace (← getStr j "pat") (← getStr j "rep") (← getStr j "s")))
   | "replace_v1" => pure (okStr (GenV1.pyReplace (← getStr j "pat") (← getStr j "rep") (← getStr j "s")))
   -- slices and indexing
-  | "slice_fp" => pure (okInts (GenF.FP.pySlice (← getIntList j "xs") (← getInt j "a") (← getInt j "b")))
-  | "slice_pyp" => pure (okStr (PyP.slice (← getStr j "s") (← getInt j "a") (← getInt j "b")))
-  | "slice_from" => pure (okStr (PyP.sliceFrom (← getStr j "s") (← getInt j "a")))
-  | "slice_to" => pure (okStr (PyP.sliceTo (← getStr j "s") (← getInt j "a")))
-  | "index_fp" => pure (match GenF.FP.pyIndex (← getIntList j "xs") (← getInt j "a") with
-      | .ok v => okInt v | .error _ => errStr "IndexError")
+  | "slice_fp" => pure (okInts (GenF.FP.pySlice (← getIntList j "xs") (← pgetInt j "a") (← pgetInt j "b")))
+  | "slice_pyp" => pure (okStr (PyP.slice (← getStr j "s") (← pgetInt j "a") (← pgetInt j "b")))
+  | "slice_from" => pure (okStr (PyP.sliceFrom (← getStr j "s") (← pgetInt j "a")))
+  | "slice_to" => pure (okStr (PyP.sliceTo (← getStr j "s") (← pgetInt j "a")))
+  | "index_fp" => pure (match GenF.FP.pyIndex (← getIntList j "xs") (← pgetInt j "a") with
+      | .ok v => pokInt v | .error _ => errStr "IndexError")
   | "pop_fp" => pure (match GenF.FP.pyPop (← getIntList j "xs") with
-      | .ok (r, v) => Json.mkObj [("ok", Json.arr #[Json.arr (r.map jint).toArray, jint v])] | .error _ => errStr "IndexError")
-  | "getitem_pyp" => pure (match PyP.getItem (← getStr j "s") (← getInt j "a") with
+      | .ok (r, v) => Json.mkObj [("ok", Json.arr #[Json.arr (r.map pjint).toArray, pjint v])] | .error _ => errStr "IndexError")
+  | "getitem_pyp" => pure (match PyP.getItem (← getStr j "s") (← pgetInt j "a") with
       | some v => okStr v | none => errStr "IndexError")
   | "getitem_rw" => pure (match GenF.pyGetItem (← getIntList j "xs") (← getNat j "a") with
-      | .ok v => okInt v | .error _ => errStr "IndexError")
-  | "setitem_rw" => pure (match GenF.pySetItem (← getIntList j "xs") (← getNat j "a") (← getInt j "v") with
+      | .ok v => pokInt v | .error _ => errStr "IndexError")
+  | "setitem_rw" => pure (match GenF.pySetItem (← getIntList j "xs") (← getNat j "a") (← pgetInt j "v") with
       | .ok v => okInts v | .error _ => errStr "IndexError")
-  | "find_fp" => pure (okInt (GenF.FP.pyFind (← getStr j "s") (← getStr j "sub")))
-  | "find_pyp" => pure (okInt (PyP.find (← getStr j "s") (← getStr j "sub") (← getInt j "a")))
+  | "find_fp" => pure (pokInt (GenF.FP.pyFind (← getStr j "s") (← getStr j "sub")))
+  | "find_pyp" => pure (pokInt (PyP.find (← getStr j "s") (← getStr j "sub") (← pgetInt j "a")))
   -- int() / str()
-  | "int_genf" => pure (match GenF.pyInt (← getStr j "s") with | .ok n => okInt n | .error _ => errStr "ValueError")
-  | "int_to_str" => pure (okStr (PyP.intToStr (← getInt j "a")))
+  | "int_genf" => pure (match GenF.pyInt (← getStr j "s") with | .ok n => pokInt n | .error _ => errStr "ValueError")
+  | "int_to_str" => pure (okStr (PyP.intToStr (← pgetInt j "a")))
   -- sorting (elements are [key, id] pairs; the id shows stability)
   | "sorted_fp" => pure (okPairs (GenF.FP.pySortedBy (fun p => p.1) (← getPairs j "xs")))
   | "sorted_desc_fp" => pure (okPairs (GenF.FP.pySortedByDesc (fun p => p.1) (← getPairs j "xs")))
@@ -113,7 +113,7 @@ def handlePrims : Handler := fun op j =>
   | "dict_update_k" => pure (okStrPairs (TieK.dictUpdate (← getStrPairs j "kvs") (← getStrPairs j "more")))
   | "set_of_list" => pure (okInts (GenF.pySetOfList (← getIntList j "xs")))
   | "set_diff" => pure (okInts (GenF.pySetDiff (← getIntList j "xs") (← getIntList j "ys")))
-  | "set_eq" => pure (okBool (GenF.pySetEq (← getIntList j "xs") (← getIntList j "ys")))
+  | "set_eq" => pure (pokBool (GenF.pySetEq (← getIntList j "xs") (← getIntList j "ys")))
   | "set_inter" => pure (okList (setInter (← getStrList j "xs") (← getStrList j "ys")))
   | "enumerate" => pure (okPairs ((GenF.pyEnumerate (← getIntList j "xs")).map (fun p => (Int.ofNat p.1, p.2))))
   -- splitting
@@ -123,13 +123,13 @@ def handlePrims : Handler := fun op j =>
   | "before_first_blank" => pure (okStr (pyBeforeFirstBlank (← getStr j "s")))
   -- dates
   | "date" => pure (match pyDate (← getNat j "y") (← getNat j "m") (← getNat j "d") with
-      | .ok d => okDate d | .error _ => errStr "ValueError")
+      | .ok d => pokDate d | .error _ => errStr "ValueError")
   | "date_v1" => pure (match GenV1.pyDate (← getNat j "y") (← getNat j "m") (← getNat j "d") with
-      | .ok d => okDate d | .error _ => errStr "ValueError")
-  | "date_add_days" => pure (match pyDateAddDays (← getNat j "y", ← getNat j "m", ← getNat j "d") (← getInt j "n") with
-      | .ok d => okDate d | .error _ => errStr "OverflowError")
+      | .ok d => pokDate d | .error _ => errStr "ValueError")
+  | "date_add_days" => pure (match pyDateAddDays (← getNat j "y", ← getNat j "m", ← getNat j "d") (← pgetInt j "n") with
+      | .ok d => pokDate d | .error _ => errStr "OverflowError")
   | "date_from_doy" => pure (match GenV1.pyDateFromDoy (← getNat j "y") (← getNat j "doy") with
-      | .ok d => okDate d | .error _ => errStr "OverflowError")
+      | .ok d => pokDate d | .error _ => errStr "OverflowError")
   | "next_id" => pure (match GenV1.pyNextId (← getStr j "s") with
       | .ok s => okStr s | .error .overflow => errStr "OverflowError" | .error _ => unsupported)
   | other => .error s!"unknown primitive {other}"
